@@ -1,4 +1,5 @@
 import Diffcalc.Gen.SolverLeaf
+import Diffcalc.Gen.SolverDispatch
 import Diffcalc.Gen.UtilLeaf
 import Diffcalc.Solver.Reference
 import Diffcalc.Solver.Func
@@ -142,4 +143,36 @@ theorem sign_generated (x : α) : Gen.util_sign x = Scalar.sign x := rfl
 
 theorem anglesEquivalent_generated (a b : α) : Gen.util_angles_equivalent a b = PyOps.anglesEquivalent a b := rfl
 
+/-! the two dispatchers over the sample-constraint dictionary (`Gen/SolverDispatch.lean`): the order of the `if "a" in … and "b" in …` chain -/
+
+/-- the constraint dictionary of each two-sample pattern, as `Constraints` hands it to the dispatcher (valueless `bisect` stored as `None`) -/
+def detCons : Samp2Det α → ConList α
+  | .muEta m e => [(.mu, some m), (.eta, some e)]
+  | .omegaBisect o => [(.omega, some o), (.bisect, none)]
+  | .muBisect m => [(.mu, some m), (.bisect, none)]
+  | .etaBisect e => [(.eta, some e), (.bisect, none)]
+  | .chiPhi c p => [(.chi, some c), (.phi, some p)]
+  | .muPhi m p => [(.mu, some m), (.phi, some p)]
+  | .muChi m c => [(.mu, some m), (.chi, some c)]
+  | .etaPhi e p => [(.eta, some e), (.phi, some p)]
+  | .etaChi e c => [(.eta, some e), (.chi, some c)]
+
+def refCons : Samp2Ref α → ConList α
+  | .chiPhi c p => [(.chi, some c), (.phi, some p)]
+  | .muEta m e => [(.mu, some m), (.eta, some e)]
+  | .chiEta c e => [(.chi, some c), (.eta, some e)]
+  | .chiMu c m => [(.chi, some c), (.mu, some m)]
+  | .muPhi m p => [(.mu, some m), (.phi, some p)]
+  | .etaPhi e p => [(.eta, some e), (.phi, some p)]
+
+theorem twoSampleDetector_generated (s : Samp2Det α) (qaz theta : α) (N : M3 α) :
+    Gen.calc_sample_con_two_sample_and_detector (detCons s) qaz theta N = Solver.twoSampleDetector s qaz theta N := by
+  cases s with
+  | muBisect m => exact sampleConMuBisect_generated m qaz theta N
+  | etaBisect e => exact sampleConEtaBisect_generated e qaz theta N
+  | _ => rfl
+
+theorem twoSampleReference_generated (s : Samp2Ref α) (psi theta : α) (N : M3 α) :
+    Gen.calc_sample_con_two_sample_and_reference (refCons s) psi theta N = Solver.twoSampleReference s psi theta N := by
+  cases s <;> rfl
 end TieSolver
